@@ -377,6 +377,51 @@ def _run_inputs(job):
     return acc.result()
 
 
+def poison():
+    """A document whose inline code holds every \\verb delimiter candidate of the renderer (read from a default
+    instance): rendering it raises RuntimeError, by design."""
+    from mistletoe.latex_renderer import LaTeXRenderer
+    with LaTeXRenderer() as r:
+        cands = ''.join(r.verb_delimiters)
+    return 'x `` ' + cands + ' `` y\n'
+
+
+def _run_reuse(job):
+    """One renderer instance for two documents: first a document whose rendering fails (no \\verb delimiter
+    is free: RuntimeError, by design) or a code document, then x on the SAME instance.  The contracts on x's
+    output are those of a fresh renderer: nothing of the first rendering may change how text is escaped."""
+    dom, inputs = job
+    acc = Acc()
+    from mistletoe import Document
+    from mistletoe.latex_renderer import LaTeXRenderer
+    for first in (poison(), '`a|b`\n\n```\n{%}\n```\n'):
+        for x in inputs:
+            acc.res['evaluations'] += 1
+            acc.res['contract_evaluations'] += 2
+            with LaTeXRenderer() as r:
+                try:
+                    r.render(Document(first))
+                except RuntimeError:
+                    pass
+                try:
+                    doc = Document(x)
+                    out = r.render(doc)
+                except Exception as e:  # noqa
+                    if 'Unable to find delimiter' not in str(e):
+                        acc.fail('noraise', 'reused-renderer-exception-' + type(e).__name__, x,
+                                 {'exception': _exc(e), 'first_document': first}, dom)
+                    continue
+            hard, soft, st, facts, math = monitor(out, doc)
+            if st['escaped'] + st['verbatim'] + st['args'] + st['math'] > 0:
+                acc.res['distinct_nontrivial'] += 1
+            if hard is not None:
+                acc.fail('latex-wf', 'reused-renderer:' + classify(hard, facts), x,
+                         {'violation': hard, 'output': _clip(out), 'first_document': first}, dom)
+    if inputs:
+        acc.sample = {'domain': dom, 'input': inputs[len(inputs) // 2]}
+    return acc.result()
+
+
 def _run_alpha(job):
     prefix, total = job
     k = total - len(prefix)
@@ -492,6 +537,9 @@ def run(tier, seed, workers):
         jobs.append((_run_inputs, ('GRAMMAR-raw', ch)))
     for ch in chunks(slots, workers * 2):
         jobs.append((_run_slots, ch))
+    reuse = [h + '\n' for h in HOSTILE] + ['a ' + h + ' b *' + h + '*\n' for h in HOSTILE[:30]] + spec[::8]
+    for ch in chunks(reuse, workers):
+        jobs.append((_run_reuse, ('REUSE', ch)))
     n_alpha = 0
     for L in range(0, alpha_n + 1):
         plen = 0 if L < 3 else 2 if L < 6 else 3
@@ -509,7 +557,7 @@ def run(tier, seed, workers):
         fn, a = j
         if fn is _run_alpha:
             return len(SIGMA) ** (a[1] - len(a[0]))
-        return len(a[1]) * 3 if fn is _run_inputs else len(a) * 6
+        return len(a[1]) * 3 if fn in (_run_inputs, _run_reuse) else len(a) * 6
     jobs.sort(key=weight, reverse=True)
     results = _pmap(jobs, workers)
 
@@ -549,12 +597,14 @@ def run(tier, seed, workers):
             '(%d documents: %d templates x %d hostile strings written unescaped) + GRAMMAR-slot '
             '(%d documents: %d templates of kinds text/url/autolink/src/hidden/info/code/'
             'blockcode x %d hostile strings, written so that the string is literal content of '
-            'the slot; additionally judged by the marker-skeleton oracle)'
+            'the slot; additionally judged by the marker-skeleton oracle) + REUSE (%d documents, each '
+            'rendered on an instance that first rendered a document for which no \\verb delimiter is free '
+            '(RuntimeError) resp. a code document: escaping must not depend on what the instance rendered before)'
             % (len(spec), n_alpha, ''.join(SIGMA), alpha_n,
                (' + slice %d/%d of length %d (3-character prefixes with index %% %d == seed %% '
                 '%d): %d strings' % (seed % SLICES, SLICES, alpha_slice, SLICES, SLICES, n_slice))
                if alpha_slice else '', len(raw), len(RAW_TEMPLATES),
-               len(hostile), len(slots), len(TEMPLATES), len(hostile))),
+               len(hostile), len(slots), len(TEMPLATES), len(hostile), len(reuse))),
         'rule': 'one case per document; non-trivial when the output contains at least one '
                 'escaped special character, verbatim region (\\verb, lstlisting), URL / image / '
                 'language argument, or a math span was set aside. Three contracts per case '
